@@ -81,4 +81,18 @@ inductive Pub
   | count      -- self._language_length[lang] = len(words)   (non-zero count = "already loaded")
   deriving DecidableEq, Repr, Inhabited
 
+/-- how a memo of btclib holds its entries (`tools/specs/lifecycle.py: cache_inventory`, by introspection of the
+    imported package): `functools.lru_cache(maxsize)`, `functools.cache` (no bound), `functools.cached_property` (one entry
+    per instance), a module-level container filled by a function. -/
+inductive CacheHold
+  | lru (maxsize : Nat) | unbounded | perInstance | moduleTable
+  deriving DecidableEq, Repr, Inhabited
+
+/-- one memo of btclib: its qualified name, how it holds entries, whether a curve is part of its key. -/
+structure CacheDecl where
+  name : String
+  hold : CacheHold
+  curveKeyed : Bool
+  deriving DecidableEq, Repr, Inhabited
+
 end Btc.C20
